@@ -441,6 +441,30 @@ def r4(ctx, p, lf):
         ctx.ok("C17-R4", "%d (times.push, labels.push) pairs: each dominated/post-dominated by its mate inside the loop" % paired, lf.loc())
     else:
         ctx.fail("C17-R4", lf.path, "unpaired push", "a line can push to one of labels/times without the other (%d of %d paired)" % (paired, len(pushes["times"])), lf.loc())
+    # the label is parsed from a *token* of the line (the third on a stamped line, the only one
+    # otherwise), never from the whole line: jlabel accepts a line with a time prefix and folds the
+    # stamps into the first phoneme field, so the waveform would depend on the stamps (seed C17k)
+    from ..expr import alternatives as _alts
+    for lb_ in pushes["labels"]:
+        lt = lf.term(lb_)
+        try:
+            v = eb.at(lb_).op(lt["args"][1])
+        except Exception:  # noqa: BLE001
+            continue
+        parses = []
+        for alt in _alts(eb, v):
+            for x in walk(alt):
+                if x[0] == "call" and (x[1].endswith("str>::parse") or x[1].endswith("FromStr>::from_str") or x[1].endswith("FromStr::from_str")) and x[2]:
+                    parses.append(x)
+        for x in parses:
+            src = [y for y in walk(x[2][0]) if y[0] == "call" and (("Split" in y[1] and y[1].endswith("::next")) or y[1].endswith("split_once") or y[1].endswith("split_whitespace"))]
+            whole_ok = any(g[0] == "none" and isinstance(g[1], tuple) and g[1][0] == "call" and g[1][1].endswith("split_once") for g in paths.guards(lf, lb_, eb))
+            if src:
+                ctx.ok("C17-R4", "the pushed label is parsed from a token of the line (%s)" % src[0][1].rsplit("::", 2)[-2][:40], cm.loc_of(lt["span"]))
+            elif whole_ok:
+                ctx.ok("C17-R4", "the pushed label is the whole line where split_once found no separator (the line is its only token)", cm.loc_of(lt["span"]))
+            else:
+                ctx.fail("C17-R4", lf.path, "label source", "the pushed label is parsed from `%s`, not from a token cut off the line: on a stamped line the time stamps become part of the label's first field, and the same utterance with and without stamps synthesizes differently" % show(x[2][0])[:80], cm.loc_of(lt["span"]))
     # a line without time stamps pushes the *unknown* pair: both components strictly negative
     # constants (-0.0 is not: `start >= 0` holds for it, and the label would count as starting at 0)
     nconst = 0
